@@ -20,15 +20,24 @@ def emit_case(cid, g, strict, w, configs, h2=False):
     toks = [code[t] for t in w]
     lines = ["C %d" % cid]
     gl = emit_define(g, 0, strict)
-    for c in configs:
+    tid = 0
+    for i, c in enumerate(configs):
         lines.append("new 0")
         lines += emit_config(0, la=c["la"], one=c["one"], cost=c["cost"], rec=c["rec"], match=c.get("match"),
                              dbg=c.get("dbg"))
         lines += gl
         if h2:
             lines.append("h2 1")
+        if (cid + i) % 3 == 0:
+            # every third parse is the second one of its object: a preliminary parse of the same (or a shortened)
+            # input, whose tree is released before the judged parse starts; the verdicts must not notice
+            lines += emit_tokens(toks if (cid + i) % 2 == 0 else toks[:len(toks) // 2])
+            lines.append("parse 0 %d nw" % c.get("amode", 2))
+            lines.append("ftree %d %d" % (tid, i % 2))
+            tid += 1
         lines += emit_tokens(toks)
         lines.append("parse 0 %d f" % c.get("amode", 2))
+        tid += 1
         lines.append("free 0")
     return lines
 
@@ -66,6 +75,21 @@ def hook_site(step):
     if "4" in hk:
         sites.append("reuse_of_split_node")
     return sites
+
+
+def closure_check(sh, ci, i, st):
+    """hook H3 (event 11): for every new set core the library re-derives, from each start situation followed by
+    nullable symbols, the situations with the dot moved over them and looks them up in the core with that start
+    situation as the parent; a = number of lookups that failed"""
+    e = st.get("hk", {}).get("11")
+    if e is None:
+        return
+    sh.count("set_cores_self_checked", e[0])
+    sh.count("nullable_advances_looked_up", e[2])
+    if e[1] > 0:
+        sh.viol.append(("set_core_lacks_derived_situation@expand_new_start_set",
+                        "grammar=%r input=[%s] config=%s: up to %d derived situation(s) missing in one core" % (
+                            ci.g, " ".join(ci.w), cfg_name(ci.configs[i]), e[1]), ci.replay(i)))
 
 
 class CaseInfo:
@@ -146,11 +170,13 @@ def merge(ck, results, key_fn=None):
     return counters
 
 
-def grammar_stream(rng, n, families=("pool", "random", "mutant", "random", "ctx"), error_p=0.0, strict=None, **kw):
+def grammar_stream(rng, n, families=("pool", "random", "mutant", "random", "ctx", "items"), error_p=0.0, strict=None, **kw):
     """Yield (name, g, strict) accepted grammars."""
     pool = gen.pool()
     out = []
     i = 0
+    if os.environ.get("VERIF_FAMILIES"):          # experiments only
+        families = tuple(os.environ["VERIF_FAMILIES"].split(","))
     while len(out) < n:
         fam = families[i % len(families)]
         i += 1
@@ -165,14 +191,15 @@ def grammar_stream(rng, n, families=("pool", "random", "mutant", "random", "ctx"
         elif fam == "random":
             g, s = gen.accepted_random_grammar(rng, strict=strict, error_p=error_p, **kw)
             out.append(("random", g, s))
-        elif fam == "ctx":
-            g = gen.context_chain_grammar(rng)
+        elif fam in ("ctx", "items", "overlap"):
+            g = (gen.context_chain_grammar(rng) if fam == "ctx" else gen.item_list_grammar(rng) if fam == "items"
+                 else gen.overlap_grammar(rng))
             s = 1 if not oracle.wf(g, 1) else 0
             if strict is not None and s != strict:
                 continue
             if oracle.wf(g, s):
                 continue
-            out.append(("context_chain", g, s))
+            out.append(({"ctx": "context_chain", "items": "item_list", "overlap": "overlap"}[fam], g, s))
         else:
             name, g = pool[rng.randrange(len(pool))]
             for _ in range(rng.randrange(1, 4)):
